@@ -31,6 +31,19 @@ func (c *Context) GetRound() string {
 	return c.round
 }
 
+// GetPreviousRound names the round before the current one ("" in the first).
+func (c *Context) GetPreviousRound() string {
+	rounds := GetRounds()
+
+	for i, round := range rounds {
+		if round == c.round && i > 0 {
+			return rounds[i-1]
+		}
+	}
+
+	return ""
+}
+
 func (c *Context) SetFrame(frame string) {
 	c.frame = frame
 }
